@@ -127,7 +127,7 @@ def replay(case):
 
 # ------------------------------------------------------------------ exploration of one drawing
 def key_of(prog):
-    return json.dumps(sorted(json.dumps(it, sort_keys=True) for it in prog))
+    return json.dumps(sorted(json.dumps(it, sort_keys=True, default=str) for it in prog))
 
 
 def orders(prog, full):
